@@ -213,6 +213,8 @@ structure G11 where
   inCheck : Bool := false
   /-- the state at the start was readable and consistent (no banned number in a slot) -/
   armed : Bool := false
+  /-- numbers the episode itself concerns: rolled back by one of its responses, or offered to the update -/
+  exempt : List Nat := []
 deriving Repr, Inhabited
 
 def G11.start (env : Env) (key : Option String) (sc : UpdateScript) (bops : List Op) (pre : View) : G11 :=
@@ -227,7 +229,8 @@ def G11.start (env : Env) (key : Option String) (sc : UpdateScript) (bops : List
          then some (m.number, b) else none
        | none => none)
     | none => none
-  { failed := pre.ps.bad, good := good, bops := bops, inCheck := false, armed := armed }
+  { failed := pre.ps.bad, good := good, bops := bops, inCheck := false, armed := armed,
+    exempt := episodeRolled sc bops ++ ((sc.resp.bind (·.patch)).map (·.number)).toList }
 
 /-- The call the other thread starts with this grant, if it starts one. -/
 def G11.bStarts (g : G11) (w : Who) : Option Op :=
@@ -235,16 +238,29 @@ def G11.bStarts (g : G11) (w : Who) : Option Op :=
   | .B, false, op :: _ => some op
   | _, _, _ => none
 
-def G11.next (g : G11) (w : Who) (rets : List Ret) (pre : View) : G11 :=
+/-- The patch a success report makes the last good one during the episode: tracked from then on when its
+    file is intact, every slot naming it validates, and none of the episode's responses concerns it. -/
+def G11.established (env : Env) (key : Option String) (g : G11) (pre : View) : Option (Nat × Bytes) :=
+  match pre.bootingNum with
+  | none => none
+  | some k =>
+    match pre.fileOf k with
+    | some b => if pre.slotsValid env key k && !g.exempt.contains k then some (k, b) else none
+    | none => none
+
+def G11.next (env : Env) (key : Option String) (g : G11) (w : Who) (rets : List Ret) (pre : View) : G11 :=
   let failed := match g.bStarts w with
     | some .failure => (match pre.bootingNum with | some n => if g.failed.contains n then g.failed else n :: g.failed | none => g.failed)
     | _ => g.failed
   let good := match g.good with
-    | none => none
+    | none => (match g.bStarts w with | some .success => g.established env key pre | _ => none)
     | some (n, b) =>
       match g.bStarts w with
       | some .failure => if pre.bootingNum = some n then none else some (n, b)
-      | some .success => (match pre.bootingNum with | some k => if k = n then some (n, b) else none | none => some (n, b))
+      | some .success =>
+        (match pre.bootingNum with
+         | some k => if k = n then some (n, b) else g.established env key pre
+         | none => some (n, b))
       | _ => some (n, b)
   match w with
   | .A => { g with failed := failed, good := good }
@@ -261,7 +277,7 @@ def retNumber : Ret → Option Nat
 /-- Checks after one grant. -/
 def checks11 (env : Env) (key : Option String) (sc : UpdateScript) (g : G11) (w : Who) (rets : List Ret)
     (pre post : View) : Checks :=
-  let g' := g.next w rets pre
+  let g' := g.next env key w rets pre
   (if g'.armed then
     g'.failed.flatMap fun n =>
       [ (!(slotNums post).contains n,
@@ -292,6 +308,6 @@ def judge11 (env : Env) (key : Option String) (sc : UpdateScript) :
   | g, k, pre, (w, rets, post) :: rest =>
     match firstFail (checks11 env key sc g w rets pre post) with
     | some why => some (k, why)
-    | none => judge11 env key sc (g.next w rets pre) (k + 1) post rest
+    | none => judge11 env key sc (g.next env key w rets pre) (k + 1) post rest
 
 end Updater
